@@ -38,6 +38,7 @@ def write_pkg(root, text):
     os.makedirs(d)
     with open(os.path.join(root, "go.mod"), "w") as fh:
         fh.write("module example.com/minigo\n\ngo 1.21\n")
+    minigo.write_support(root)
     path = os.path.join(d, "f.go")
     with open(path, "w") as fh:
         fh.write(text)
